@@ -276,6 +276,23 @@ def _always_exits(body: List[ast.stmt]) -> bool:
     return False
 
 
+def _guard_atoms(cn, test: ast.AST, truth: bool) -> List[str]:
+    """The guard contributed by ``test`` being *truth*, as a list of canonical signed atoms: conjunctions (and negated
+    disjunctions) are split, a leading ``not`` becomes the sign - so ``if a and b:`` / ``if not (not a or not b):`` / nested
+    ``if a: if b:`` and the else-branch of ``if not a or not b:`` all carry the same guard."""
+    from .cfg import split_atoms
+    out = []
+    for a, pol in split_atoms(test, truth):
+        while isinstance(a, ast.UnaryOp) and isinstance(a.op, ast.Not):
+            a, pol = a.operand, not pol
+        if isinstance(a, ast.Compare) and len(a.ops) == 1 and isinstance(a.ops[0], (ast.NotIn, ast.IsNot, ast.NotEq)):
+            flip = {ast.NotIn: ast.In, ast.IsNot: ast.Is, ast.NotEq: ast.Eq}[type(a.ops[0])]
+            a = ast.Compare(left=a.left, ops=[flip()], comparators=a.comparators)
+            pol = not pol
+        out.append(("+" if pol else "-") + cn.text(a))
+    return out
+
+
 def extract(program: Program, func: FuncInfo, renames: Dict[str, str],
             inline: Optional[Dict[str, FuncInfo]] = None, param_renames=None) -> List[Record]:
     """Operation records of *func*. ``inline``: self-method name -> helper whose
@@ -321,20 +338,20 @@ def extract(program: Program, func: FuncInfo, renames: Dict[str, str],
             if isinstance(s, ast.Expr) and isinstance(s.value, ast.Constant):
                 continue
             if isinstance(s, ast.If):
-                t = cn.text(s.test)
+                pos, neg = _guard_atoms(cn, s.test, True), _guard_atoms(cn, s.test, False)
                 ops_of(s.test, guards, loops)
-                walk(s.body, guards + [f"+{t}"], loops)
-                walk(s.orelse, guards + [f"-{t}"], loops)
+                walk(s.body, guards + pos, loops)
+                walk(s.orelse, guards + neg, loops)
                 if _always_exits(s.body) and not s.orelse:
-                    guards = guards + [f"-{t}"]
+                    guards = guards + neg
                 elif s.orelse and _always_exits(s.orelse) and not _always_exits(s.body):
-                    guards = guards + [f"+{t}"]
+                    guards = guards + pos
             elif isinstance(s, (ast.For, ast.AsyncFor)):
                 ops_of(s.iter, guards, loops)
                 walk(s.body, guards, loops + [cn.text(s.iter)])
             elif isinstance(s, ast.While):
                 ops_of(s.test, guards, loops)
-                walk(s.body, guards + [f"+{cn.text(s.test)}"], loops + ["while"])
+                walk(s.body, guards + _guard_atoms(cn, s.test, True), loops + ["while"])
             elif isinstance(s, ast.Try):
                 walk(s.body, guards, loops)
                 for h in s.handlers:
